@@ -107,15 +107,16 @@ def main():
                  if nt and len(run.samples) < 4 else None)
         # metamorphic replays on a sample
         if n_ % 16 == 0:
-            for k in (-3, 5, -30, 30):      # 2^-30 ~ 9e-10 (ambient noise in m/s), 2^30 ~ 1e9 (raw counts)
-                sc = 2.0 ** k
+            # 2^-30 ~ 9e-10 (ambient noise in m/s), 2^30 ~ 1e9 (raw counts); 49/8 and 41/4 are exact in binary, every level stays an
+            # exact float, and the loudest sample becomes 49 resp. 41 - values for which x * (1/x) is not 1 in binary
+            for k, sc in ((-3, 2.0 ** -3), (5, 2.0 ** 5), (-30, 2.0 ** -30), (30, 2.0 ** 30), ("49/8", 6.125), ("41/4", 10.25)):
                 recs2 = [record(w, case["pat"][w], sc) for w in range(nwin)]
                 got2 = h.sta_lta_window_rejection(recs2, sta_seconds=STA, lta_seconds=LTA, min_sta_lta_ratio=lo,
                                                   max_sta_lta_ratio=hi, components=comps)
-                judge("sta_lta_window_rejection", recs2, got2, case["psel"], case, None, extra=f"[amplitudes x2^{k}]")
+                judge("sta_lta_window_rejection", recs2, got2, case["psel"], case, None, extra=f"[amplitudes x{sc}]")
                 if normed:
                     got2 = h.maximum_value_window_rejection(recs2, maximum_value_threshold=thr, normalized=True, components=comps)
-                    judge("maximum_value_window_rejection", recs2, got2, case["pmsel"], case, None, extra=f"[amplitudes x2^{k}]")
+                    judge("maximum_value_window_rejection", recs2, got2, case["pmsel"], case, None, extra=f"[amplitudes x{sc}]")
             # each window alone: the STA/LTA decision depends on that window only
             for w in range(nwin):
                 alone = h.sta_lta_window_rejection([recs[w]], sta_seconds=STA, lta_seconds=LTA, min_sta_lta_ratio=lo,
